@@ -1,8 +1,330 @@
-//! positional (`*_at`) operations on the in-memory implementations
+//! positional (`*_at`) operations on the in-memory implementations of compio-io:
+//! `[u8]` / `[u8; N]` / `Vec<u8>` as `AsyncReadAt`, `Vec<u8>` and `[u8]` as `AsyncWriteAt`,
+//! and the `*_at` helper loops over them.
+//!
+//!   rat|rxat|reat <src> <pos> <dst>          read_at / read_exact_at / read_to_end_at
+//!   rvat|rvxat <src> <pos> <members>         read_vectored_at / read_vectored_exact_at
+//!   wat|waat v|a <dst> <pos> <data>          write_at / write_all_at on Vec (v) or [u8] (a)
+//!   wvat|wvaat v|a <dst> <pos> <views>       write_vectored_at / write_vectored_all_at
+
+use compio_buf::BufResult;
+use compio_io::{AsyncReadAt, AsyncReadAtExt, AsyncWriteAt, AsyncWriteAtExt};
 use hx_common::*;
 
-pub fn exec(w: &[&str], line: &str, _ex: &mut Exec) -> String {
-    panic!("bad op {} in {line}", w[0])
+use super::{
+    f19_shape, ok_n, ok_unit, parse_dst, parse_members, parse_views, show_dst, show_members, show_res,
+};
+
+fn overlay_keep(orig: &[u8], pos: usize, src: &[u8]) -> Vec<u8> {
+    let mut v = orig.to_vec();
+    if v.len() < pos + src.len() {
+        v.resize(pos + src.len(), 0);
+    }
+    v[pos..pos + src.len()].copy_from_slice(src);
+    v
 }
 
-pub fn generate(_tier: &str, _rng: &mut Rng, _cases: &mut Vec<Case>) {}
+/// the source as the three in-memory `AsyncReadAt` types, chosen by the payload length so that the
+/// array implementation is covered too
+enum Src {
+    Vec(Vec<u8>),
+    Boxed(Box<[u8]>),
+    Arr4([u8; 4]),
+}
+
+fn src_of(d: Vec<u8>) -> Src {
+    if d.len() == 4 {
+        Src::Arr4([d[0], d[1], d[2], d[3]])
+    } else if d.len() % 2 == 0 {
+        Src::Boxed(d.into_boxed_slice())
+    } else {
+        Src::Vec(d)
+    }
+}
+
+macro_rules! with_src {
+    ($s:expr, $x:ident, $body:expr) => {
+        match $s {
+            Src::Vec($x) => $body,
+            Src::Boxed($x) => $body,
+            Src::Arr4($x) => $body,
+        }
+    };
+}
+
+fn exec_read(w: &[&str], line: &str, ex: &mut Exec) -> String {
+    let op = w[0];
+    let src = unhex(w[1]);
+    let pos: u64 = w[2].parse().expect("pos");
+    ex.tag(format!("op:{op}"));
+    let p = (pos.min(src.len() as u64)) as usize;
+    let avail = &src[p..];
+    match op {
+        "rat" | "rxat" | "reat" => {
+            let orig = parse_dst(w[3]);
+            let ocap = orig.capacity();
+            let s = src_of(src.clone());
+            let r = catch(|| {
+                futures_executor::block_on(async {
+                    let d = parse_dst(w[3]);
+                    with_src!(&s, x, match op {
+                        "rat" => {
+                            let BufResult(r, d) = x.read_at(d, pos).await;
+                            (show_res(&r, ok_n), d)
+                        }
+                        "rxat" => {
+                            let BufResult(r, d) = x.read_exact_at(d, pos).await;
+                            (show_res(&r, ok_unit), d)
+                        }
+                        _ => {
+                            let BufResult(r, d) = x.read_to_end_at(d, pos).await;
+                            (show_res(&r, ok_n), d)
+                        }
+                    })
+                })
+            });
+            match r {
+                Err(m) => {
+                    ex.fail("C11:panic", format!("{line} => panic: {m}"));
+                    "panic".into()
+                }
+                Ok((res, d)) => {
+                    ex.tag(format!("res:{op}:{}", res.split(':').next().unwrap()));
+                    // reference
+                    let (want_res, want) = match op {
+                        "rat" => {
+                            let k = avail.len().min(ocap);
+                            let mut v = overlay_keep(&orig, 0, &avail[..k]);
+                            v.truncate(orig.len().max(k));
+                            (format!("ok:{k}"), v)
+                        }
+                        "rxat" => {
+                            let k = avail.len().min(ocap);
+                            let mut v = overlay_keep(&orig, 0, &avail[..k]);
+                            v.truncate(orig.len().max(k));
+                            (if k == ocap { "ok".to_string() } else { "eof".to_string() }, v)
+                        }
+                        _ => {
+                            let mut v = orig.clone();
+                            v.extend_from_slice(avail);
+                            (format!("ok:{}", avail.len()), v)
+                        }
+                    };
+                    if res != want_res || d != want {
+                        ex.fail(
+                            "C11:mem-read-ref",
+                            format!("{line}: {res} {} but the reference is {want_res} {}", hex(&d), hex(&want)),
+                        );
+                    }
+                    ex.nontrivial = src.len() >= 2;
+                    format!("{} {}", res, show_dst(&d))
+                }
+            }
+        }
+        _ => {
+            let orig = parse_members(w[3]);
+            let nonprefix = f19_shape(&orig);
+            let s = src_of(src.clone());
+            let r = catch(|| {
+                futures_executor::block_on(async {
+                    let m = parse_members(w[3]);
+                    with_src!(&s, x, match op {
+                        "rvat" => {
+                            let BufResult(r, m) = x.read_vectored_at(m, pos).await;
+                            (show_res(&r, ok_n), m)
+                        }
+                        _ => {
+                            let BufResult(r, m) = x.read_vectored_exact_at(m, pos).await;
+                            (show_res(&r, ok_unit), m)
+                        }
+                    })
+                })
+            });
+            match r {
+                Err(m) => {
+                    let sig = if nonprefix { "F19:vectored-nonprefix-init" } else { "C11:panic" };
+                    ex.fail(sig, format!("{line} => panic: {m}"));
+                    "panic".into()
+                }
+                Ok((res, m)) => {
+                    ex.tag(format!("res:{op}:{}", res.split(':').next().unwrap()));
+                    let total_cap: usize = orig.iter().map(|o| o.capacity()).sum();
+                    let k = avail.len().min(total_cap);
+                    let mut left = &avail[..k];
+                    let mut want: Vec<Vec<u8>> = vec![];
+                    for o in &orig {
+                        let n = left.len().min(o.capacity());
+                        let mut v = overlay_keep(o, 0, &left[..n]);
+                        v.truncate(o.len().max(n));
+                        left = &left[n..];
+                        want.push(v);
+                    }
+                    let want_res = match op {
+                        "rvat" => format!("ok:{k}"),
+                        _ => if k == total_cap { "ok".to_string() } else { "eof".to_string() },
+                    };
+                    if res != want_res || m != want {
+                        let sig = if nonprefix { "F19:vectored-nonprefix-init" } else { "C11:mem-read-ref" };
+                        ex.fail(
+                            sig,
+                            format!(
+                                "{line}: {res} {} but the reference is {want_res} {}",
+                                show_members(&m),
+                                show_members(&want)
+                            ),
+                        );
+                    }
+                    ex.nontrivial = src.len() >= 2 && orig.len() >= 2;
+                    format!("{} {}", res, show_members(&m))
+                }
+            }
+        }
+    }
+}
+
+/// reference of a positional write: the file grows, zero filled, and the data lands at `pos`
+fn write_ref(kind: &str, dst: &[u8], pos: u64, data: &[u8]) -> (usize, Vec<u8>) {
+    if kind == "v" {
+        let pos = pos as usize;
+        let mut v = dst.to_vec();
+        if v.len() < pos {
+            v.resize(pos, 0);
+        }
+        (data.len(), overlay_keep(&v, pos, data))
+    } else {
+        let p = (pos.min(dst.len() as u64)) as usize;
+        let n = data.len().min(dst.len() - p);
+        (n, overlay_keep(dst, p, &data[..n]))
+    }
+}
+
+fn exec_write(w: &[&str], line: &str, ex: &mut Exec) -> String {
+    let op = w[0];
+    let kind = w[1];
+    let dst = unhex(w[2]);
+    let pos: u64 = w[3].parse().expect("pos");
+    ex.tag(format!("op:{op}:{kind}"));
+    let vectored = op == "wvat" || op == "wvaat";
+    let views: Vec<Vec<u8>> = if vectored { parse_views(w[4], ';') } else { vec![unhex(w[4])] };
+    let flat: Vec<u8> = views.concat();
+    let r = catch(|| {
+        futures_executor::block_on(async {
+            macro_rules! run {
+                ($d:expr) => {{
+                    let mut d = $d;
+                    let res = match op {
+                        "wat" => show_res(&d.write_at(flat.clone(), pos).await.0, ok_n),
+                        "waat" => show_res(&d.write_all_at(flat.clone(), pos).await.0, ok_unit),
+                        "wvat" => show_res(&d.write_vectored_at(views.clone(), pos).await.0, ok_n),
+                        _ => show_res(&d.write_vectored_all_at(views.clone(), pos).await.0, ok_unit),
+                    };
+                    (res, d.to_vec())
+                }};
+            }
+            if kind == "v" {
+                run!(dst.clone())
+            } else if dst.len() == 4 {
+                run!([dst[0], dst[1], dst[2], dst[3]])
+            } else {
+                run!(dst.clone().into_boxed_slice())
+            }
+        })
+    });
+    // the exact guard of the Vec implementation: the needed length must not exceed isize::MAX
+    // `write_all_at` of nothing never calls `write_at`
+    let no_call = (op == "waat" || op == "wvaat") && flat.is_empty();
+    let needed = (dst.len() as u128).max(pos as u128 + flat.len() as u128);
+    let beyond = kind == "v" && !no_call && needed > isize::MAX as u128;
+    match r {
+        Err(m) => {
+            if beyond {
+                ex.tag("res:write-at:capacity-overflow");
+            } else {
+                ex.fail("C11:panic", format!("{line} => panic: {m}"));
+            }
+            "panic".into()
+        }
+        Ok((res, d)) => {
+            ex.tag(format!("res:{op}:{}", res.split(':').next().unwrap()));
+            let (n, want) = if no_call { (0, dst.clone()) } else { write_ref(kind, &dst, pos, &flat) };
+            let want_res = match op {
+                "wat" | "wvat" => format!("ok:{n}"),
+                _ => if n == flat.len() { "ok".to_string() } else { "wz".to_string() },
+            };
+            // a positional write of nothing beyond the end still extends a Vec (as a file would not,
+            // but as the documentation of the implementation says): covered by the reference
+            if res != want_res || d != want {
+                ex.fail(
+                    "C11:mem-write-ref",
+                    format!("{line}: {res} {} but the reference is {want_res} {}", hex(&d), hex(&want)),
+                );
+            }
+            ex.nontrivial = flat.len() >= 2;
+            format!("{} {}", res, hex(&d))
+        }
+    }
+}
+
+pub fn exec(w: &[&str], line: &str, ex: &mut Exec) -> String {
+    match w[0] {
+        "rat" | "rxat" | "reat" | "rvat" | "rvxat" => exec_read(w, line, ex),
+        "wat" | "waat" | "wvat" | "wvaat" => exec_write(w, line, ex),
+        _ => panic!("bad op {} in {line}", w[0]),
+    }
+}
+
+fn gen_pos(rng: &mut Rng, len: usize, huge_ok: bool) -> u64 {
+    match rng.below(10) {
+        0 => len as u64,
+        1 => len as u64 + 1 + rng.below(4),
+        2 if huge_ok => u64::MAX,
+        3 if huge_ok => 1 << 63,
+        4 if huge_ok => (1 << 32) + rng.below(5),
+        5 if huge_ok => u64::MAX - rng.below(8),
+        _ => rng.below(len as u64 + 1),
+    }
+}
+
+pub fn generate(tier: &str, rng: &mut Rng, cases: &mut Vec<Case>) {
+    let n = if tier == "thorough" { 40_000 } else { 2_500 };
+    for i in 0..n {
+        let src = super::gen_payload(rng, 12);
+        let line = match rng.below(9) {
+            0 => format!("rat {} {} {}", hex(&src), gen_pos(rng, src.len(), true), super::gen_dst(rng, src.len())),
+            1 => format!("rxat {} {} {}", hex(&src), gen_pos(rng, src.len(), true), super::gen_dst(rng, src.len() / 2)),
+            2 => format!("reat {} {} {}", hex(&src), gen_pos(rng, src.len(), true), super::gen_dst(rng, src.len())),
+            3 => {
+                let np = rng.chance(1, 6);
+                format!("rvat {} {} {}", hex(&src), gen_pos(rng, src.len(), true), super::gen_members(rng, src.len(), np))
+            }
+            4 => {
+                let np = rng.chance(1, 6);
+                format!("rvxat {} {} {}", hex(&src), gen_pos(rng, src.len(), true), super::gen_members(rng, src.len(), np))
+            }
+            k => {
+                let kind = if rng.chance(1, 2) { "v" } else { "a" };
+                let dst = if rng.chance(1, 6) { vec![0x55; 4] } else { vec![0x55; rng.below(10) as usize] };
+                // a Vec really allocates up to `pos`: only small positions, or positions that
+                // cannot be allocated at all (capacity overflow, the documented guard)
+                let pos = if kind == "v" {
+                    match rng.below(12) {
+                        0 => u64::MAX,
+                        1 => 1 << 63,
+                        2 => u64::MAX - rng.below(6),
+                        _ => gen_pos(rng, dst.len(), false),
+                    }
+                } else {
+                    gen_pos(rng, dst.len(), true)
+                };
+                let data = super::gen_payload(rng, 8);
+                match k {
+                    5 => format!("wat {kind} {} {pos} {}", hex(&dst), hex(&data)),
+                    6 => format!("waat {kind} {} {pos} {}", hex(&dst), hex(&data)),
+                    7 => format!("wvat {kind} {} {pos} {}", hex(&dst), super::gen_views(rng, &data, ";")),
+                    _ => format!("wvaat {kind} {} {pos} {}", hex(&dst), super::gen_views(rng, &data, ";")),
+                }
+            }
+        };
+        cases.push(Case { name: format!("m{i}"), lines: vec![line] });
+    }
+}
